@@ -326,6 +326,25 @@ func enumerateQueries(cfg genConfig) []*Query {
 		}
 	}
 
+	// stream-label filter, extraction, filter on the extracted label (both tiers; the thorough tier takes more leaves)
+	{
+		pre := labelStages(treesOver(storedLeaves(true), 1, nil))
+		post := labelStages(treesOver(extractedLeaves(true), 1, nil))
+		prs := []Stage{jsonAtoms()[0], regexpAtoms()[0]}
+		if cfg.thorough {
+			prs = parsers
+			post = labelStages(treesOver(extractedLeaves(false), 1, nil))
+		} else {
+			pre = pre[:5]
+		}
+		for _, l1 := range pre {
+			for _, ps := range prs {
+				for _, l2 := range post {
+					add(all, l1, ps, l2)
+				}
+			}
+		}
+	}
 	if !cfg.thorough {
 		// quick tier: the three-stage shape parser, label filter, drop (a drop after a filter on the same SELECT)
 		for _, ps := range []Stage{jsonAtoms()[0], regexpAtoms()[0]} {
